@@ -321,7 +321,7 @@ def stat_run(spec):
         g = cm.CliffordGate(0, **kw)
         holder = g
         hk = spec.get('holder', 'gate')
-        if hk not in ('gate', 'gate-rejected-call'):
+        if hk not in ('gate', 'gate-rejected-call', 'povm-pairs'):
             # the map-less gate sits in a layer / circuit on which compile() was attempted (it cannot be compiled: an exception is the documented
             # outcome); the object is then used as before and must still draw a fresh map per call
             if hk == 'layer':
@@ -362,6 +362,22 @@ def stat_run(spec):
                   'a rejected call left a map stored on a map-less gate', 'not-resampled-after-rejected-call')
         counts = np.zeros((6, 6))
         same = 0
+        if hk == 'povm-pairs':
+            # consecutive samples of one povm(2) generator of a one-qubit random circuit: independent, uniform over the 6 stabilizer states
+            circ = cm.onsite_rcc(1, **kw) if spec['N'] == 1 else cm.global_rcc(1, **kw)
+            for _ in range(n):
+                two = list(circ.povm(2))
+                check(len(two) == 2 and two[0] is not two[1], 'povm(2) did not yield two separate states', 'povm-count')
+                cell = []
+                for T in two:
+                    l, k, r = Bk.read_state(T)
+                    check(r == 0 and int(l[0, 0]) != 0, 'povm sample is not a pure one-qubit stabilizer state', 'invalid-state')
+                    cell.append((int(l[0, 0]) - 1) * 2 + int(k[0]) // 2)
+                counts[cell[0], cell[1]] += 1
+                same += cell[0] == cell[1]
+            stat, p = chi2_p(counts.ravel(), np.full(36, n / 36))
+            check(p >= P_REJECT, 'two samples of one povm(2) call of a random one-qubit circuit: chi-square %.1f over 36 cells p=%.3g (equal pairs %d of %d)' % (stat, p, same, n), 'povm-not-resampled')
+            return {'cells': 36, 'chi2': stat, 'p': p, 'distinct': set(range(36))}
 
         def draw():
             P = Bk.plist(*ref.parse_list(['+Z']))
@@ -415,7 +431,7 @@ NPQ = [{'what': 'clifford', 'N': 1, 'n': 24000}, {'what': 'clifford-signed', 'N'
        {'what': 'signs', 'N': 2, 'n': 10000}, {'what': 'bitstate', 'N': 3, 'n': 10000}, {'what': 'coin', 'N': 2, 'n': 20000}, {'what': 'coin-mixed', 'N': 3, 'n': 12000}, {'what': 'coin-mixed', 'N': 2, 'n': 8000}, {'what': 'resample', 'N': 1, 'n': 10000}, {'what': 'gate-forward', 'N': 2, 'n': 36000}, {'what': 'gate-backward', 'N': 2, 'n': 36000},
        {'what': 'clifford-state', 'N': 2, 'r': 1, 'n': 6000}, {'what': 'clifford-state', 'N': 2, 'r': 0, 'n': 9000}, {'what': 'clifford-state', 'N': 3, 'r': 1, 'n': 30000},
        {'what': 'clifford-state', 'N': 3, 'r': 2, 'n': 10000}, {'what': 'pauli-state', 'N': 2, 'r': 1, 'n': 3000}, {'what': 'pauli-state', 'N': 3, 'r': 1, 'n': 8000},
-       {'what': 'resample', 'N': 1, 'n': 3000, 'holder': 'layer'}, {'what': 'resample', 'N': 1, 'n': 3000, 'holder': 'CliffordCircuit'}, {'what': 'resample', 'N': 1, 'n': 3000, 'holder': 'Circuit'}, {'what': 'resample', 'N': 1, 'n': 3000, 'holder': 'gate-rejected-call'}]
+       {'what': 'resample', 'N': 1, 'n': 3000, 'holder': 'layer'}, {'what': 'resample', 'N': 1, 'n': 3000, 'holder': 'CliffordCircuit'}, {'what': 'resample', 'N': 1, 'n': 3000, 'holder': 'Circuit'}, {'what': 'resample', 'N': 1, 'n': 3000, 'holder': 'gate-rejected-call'}, {'what': 'resample', 'N': 1, 'n': 2500, 'holder': 'povm-pairs'}]
 NPT = [{'what': 'clifford', 'N': 1, 'n': 240000}, {'what': 'clifford-signed', 'N': 1, 'n': 240000}, {'what': 'clifford', 'N': 2, 'n': 1500000},
        {'what': 'clifford-signed', 'N': 2, 'n': 1200000}, {'what': 'clifford', 'N': 2, 'n': 1500000}, {'what': 'clifford-signed', 'N': 2, 'n': 1200000},
        {'what': 'pauli-map', 'N': 1, 'n': 120000}, {'what': 'pauli-map', 'N': 2, 'n': 600000}, {'what': 'pair', 'N': 1, 'n': 60000}, {'what': 'pair', 'N': 2, 'n': 240000},
@@ -424,12 +440,12 @@ NPT = [{'what': 'clifford', 'N': 1, 'n': 240000}, {'what': 'clifford-signed', 'N
        {'what': 'clifford-state', 'N': 2, 'r': 1, 'n': 120000}, {'what': 'clifford-state', 'N': 2, 'r': 0, 'n': 120000}, {'what': 'clifford-state', 'N': 3, 'r': 1, 'n': 400000},
        {'what': 'clifford-state', 'N': 3, 'r': 2, 'n': 200000}, {'what': 'clifford-state', 'N': 3, 'r': 0, 'n': 400000}, {'what': 'clifford-state', 'N': 4, 'r': 3, 'n': 200000},
        {'what': 'pauli-state', 'N': 2, 'r': 1, 'n': 60000}, {'what': 'pauli-state', 'N': 3, 'r': 1, 'n': 100000}, {'what': 'pauli-state', 'N': 3, 'r': 0, 'n': 100000},
-       {'what': 'resample', 'N': 1, 'n': 60000, 'holder': 'layer'}, {'what': 'resample', 'N': 1, 'n': 60000, 'holder': 'CliffordCircuit'}, {'what': 'resample', 'N': 1, 'n': 60000, 'holder': 'Circuit'}, {'what': 'resample', 'N': 1, 'n': 60000, 'holder': 'gate-rejected-call'}]
+       {'what': 'resample', 'N': 1, 'n': 60000, 'holder': 'layer'}, {'what': 'resample', 'N': 1, 'n': 60000, 'holder': 'CliffordCircuit'}, {'what': 'resample', 'N': 1, 'n': 60000, 'holder': 'Circuit'}, {'what': 'resample', 'N': 1, 'n': 60000, 'holder': 'gate-rejected-call'}, {'what': 'resample', 'N': 1, 'n': 40000, 'holder': 'povm-pairs'}]
 TQ = [{'what': 'gate-backward', 'N': 2, 'n': 14400}, {'what': 'clifford', 'N': 1, 'n': 6000}, {'what': 'clifford', 'N': 2, 'n': 14400}, {'what': 'pauli-map', 'N': 2, 'n': 40000}, {'what': 'pair', 'N': 2, 'n': 6000},
       {'what': 'clifford-state', 'N': 2, 'r': 1, 'n': 3000},
       {'what': 'clifford-signed', 'N': 1, 'n': 6000, 'dev': 'obj'}, {'what': 'signs', 'N': 2, 'n': 3000, 'dev': 'obj'}, {'what': 'resample', 'N': 1, 'n': 3000, 'dev': 'obj'},
       {'what': 'pauli-map', 'N': 1, 'n': 6000, 'dev': 'obj'}, {'what': 'clifford-state', 'N': 2, 'r': 1, 'n': 3000, 'dev': 'obj'}, {'what': 'gate-forward', 'N': 1, 'n': 3000, 'dev': 'obj'},
-      {'what': 'resample', 'N': 1, 'n': 2000, 'holder': 'layer'}, {'what': 'resample', 'N': 1, 'n': 2000, 'holder': 'CliffordCircuit'}, {'what': 'resample', 'N': 1, 'n': 2000, 'holder': 'gate-rejected-call'}]
+      {'what': 'resample', 'N': 1, 'n': 2000, 'holder': 'layer'}, {'what': 'resample', 'N': 1, 'n': 2000, 'holder': 'CliffordCircuit'}, {'what': 'resample', 'N': 1, 'n': 2000, 'holder': 'gate-rejected-call'}, {'what': 'resample', 'N': 1, 'n': 1500, 'holder': 'povm-pairs'}]
 TT = [{'what': 'clifford', 'N': 1, 'n': 60000}, {'what': 'clifford', 'N': 2, 'n': 200000}, {'what': 'clifford-signed', 'N': 1, 'n': 60000},
       {'what': 'pauli-map', 'N': 2, 'n': 120000}, {'what': 'pair', 'N': 2, 'n': 60000}, {'what': 'signs', 'N': 2, 'n': 40000},
       {'what': 'clifford-state', 'N': 2, 'r': 1, 'n': 30000}, {'what': 'clifford-state', 'N': 3, 'r': 1, 'n': 60000}, {'what': 'pauli-state', 'N': 2, 'r': 1, 'n': 20000},
